@@ -16,7 +16,7 @@ ID = 'C07'
 def plan(tier):
     if tier == 'quick':
         return [(1, ('plain',), 'RBWN', 2, False), (2, ('plain', 'rainbow'), 'RBWN', 2, False),
-                (3, ('plain',), 'RBW', 2, False), (3, ('rainbow',), 'RWN', 1, True), (4, ('plain',), 'RB', 2, False), (3, ('parsed',), 'RW', 1, False), (3, ('plain',), 'egB', 2, False), (3, ('long',), 'RB', 2, False)]
+                (3, ('plain',), 'RBW', 2, False), (3, ('rainbow',), 'RWN', 1, True), (4, ('plain',), 'RB', 2, False), (3, ('parsed',), 'RW', 1, False), (3, ('plain',), 'egB', 2, False), (3, ('long',), 'RB', 2, False), (2, ('plain',), 'WN', 3, False), (2, ('plain',), 'RB', 3, False)]
     return [(1, ('plain',), 'RBWNX', 3, False), (2, ('plain', 'rainbow'), 'RBWN', 3, False),
             (3, ('plain', 'rainbow'), 'RBWN', 2, True), (3, ('plain',), 'RBW', 3, False), (4, ('plain', 'rainbow'), 'RBW', 2, False),
             (5, ('plain',), 'RB', 2, False), (3, ('long',), 'RBW', 2, False)]
@@ -45,7 +45,7 @@ def model_remove(cells, S, s, e):
 
 
 def check_remove(h, pre, S, i, j):
-    text, cells, ch0 = pre
+    text, cells, ch0 = pre[:3]
     L = len(text)
     v = build(h)
     what = 'remove_formatting(%r,%r,%r)' % (S, i, j)
@@ -63,7 +63,7 @@ def check_remove(h, pre, S, i, j):
     if t2 != text:
         return [('remove-text', '%s changed the text to %r' % (what, t2))], v
     if e <= s:
-        if model.canon_hash(v) != ch0:
+        if not model.unchanged(v, pre[3]):
             bad.append(('remove-noop', '%s with an empty range is not a no-op: cells %s -> %s' % (what, cells, c2)))
         return bad, v
     from ..hist import expand_codes
@@ -84,7 +84,7 @@ def check_remove(h, pre, S, i, j):
 def check_state(h, v, acc, tier):
     text, cells = model.alpha_codes(v)
     L = len(text)
-    pre = (text, cells, model.canon_hash(v))
+    pre = (text, cells, model.canon_hash(v), model.freeze_value(v))
     m = menu(acc.seed, tier)
     bounds = explore.probe_bounds(L, 2, 3)
     out = []
@@ -178,7 +178,7 @@ def replay(case):
     op = case['op']
     v = build(h)
     text, cells = model.alpha_codes(v)
-    pre = (text, cells, model.canon_hash(v))
+    pre = (text, cells, model.canon_hash(v), model.freeze_value(v))
     if op[0] == 'remove':
         return check_remove(h, pre, op[1], op[2], op[3])[0]
     from ..runner import Acc
